@@ -104,7 +104,7 @@ class scanner_env:
         if "os" in self.saved:
             ts.os = pyio.OS(self.exists)
         if SYMBOLIC and "io" in self.saved:
-            ts.io = pyio
+            ts.io = pyio.hybrid_io()
         return self
 
     def __exit__(self, *a):
